@@ -1,6 +1,6 @@
 (* C09/ProofsGuards.v : swap_guard_<Router> -- the swaps each router proposes meet the edge
-   guard of the transition system (or do not: ShortestPaths._add_swaps, refuted; the repaired
-   version is proved). *)
+   guard of the transition system (ShortestPaths._add_swaps: proved for the current source; the pre-repair
+   formula is kept as a historical counterexample). *)
 From Coq Require Import List Arith Bool Lia.
 From QV Require Import C09.Trace C09.ModelRouter C09.ProofsRouter.
 Import ListNotations.
@@ -113,18 +113,18 @@ Proof.
   unfold wf_maps; auto.
 Qed.
 
-(* ---- ShortestPaths._add_swaps as in the source: refuted *)
+(* ---- HISTORICAL: the pre-repair formula of ShortestPaths._add_swaps left the edges *)
 Definition line6 : graph := [(0,1); (1,2); (2,3); (3,4); (4,5)].
 
-Theorem swap_guard_ShortestPaths_refuted_witness :
+Theorem add_swaps_prefix_formula_witness :
   is_path line6 [0;1;2;3;4;5] = true /\
   option_map (fun s' => emitted_swaps (out s'))
-             (apply_swaps 6 no_guard (init 6 []) (add_swaps_ops [0;1;2;3;4;5] 2))
+             (apply_swaps 6 no_guard (init 6 []) (add_swaps_prefix_formula_ops [0;1;2;3;4;5] 2))
     = Some [(1,0); (2,0); (4,5); (3,5)] /\
-  apply_swaps 6 (guard_edge line6) (init 6 []) (add_swaps_ops [0;1;2;3;4;5] 2) = None.
+  apply_swaps 6 (guard_edge line6) (init 6 []) (add_swaps_prefix_formula_ops [0;1;2;3;4;5] 2) = None.
 Proof. split; [reflexivity|]. split; vm_compute; reflexivity. Qed.
 
-(* ---- the repaired _add_swaps (consecutive path nodes): proved *)
+(* ---- _add_swaps (consecutive path nodes): proved *)
 Lemma apply_swaps_app n chk f1 : forall s f2,
   apply_swaps n chk s (f1 ++ f2) =
   match apply_swaps n chk s f1 with Some s' => apply_swaps n chk s' f2 | None => None end.
@@ -182,11 +182,11 @@ Proof.
   - apply andb_prop in H. apply IH; tauto.
 Qed.
 
-Theorem swap_guard_ShortestPaths_fixed n G path mp s :
+Theorem swap_guard_ShortestPaths_add_swaps n G path mp s :
   graph_ok n G -> wf_maps n (l2p s) (p2l s) -> is_path G path = true ->
-  exists s', apply_swaps n (guard_edge G) s (add_swaps_fixed_ops path mp) = Some s'.
+  exists s', apply_swaps n (guard_edge G) s (add_swaps_ops path mp) = Some s'.
 Proof.
-  intros GO W P. unfold add_swaps_fixed_ops. rewrite apply_swaps_app.
+  intros GO W P. unfold add_swaps_ops. rewrite apply_swaps_app.
   assert (F : forall pf, In pf (consecutive (firstn (mp + 1) path)) -> has_edge G (fst pf) (snd pf) = true).
   { intros [a b] H. cbn. apply in_consecutive_split in H. destruct H as (l1 & l2 & E).
     apply (is_path_pairs G path P). apply in_consecutive_split.
